@@ -521,12 +521,63 @@ fn check_one(cx: &mut Cx, bin: &[u8], reply: &str, serial: u64)
 	}
 }
 
+/// `tridas` without an argument: announces the missing argument on stderr, prints no listing, is not killed
+fn cli_noargs(cx: &mut Cx)
+{
+	let input = "cli noargs".to_owned();
+	let out = Command::new(repo_bin("tridas")).output().expect("cannot run tridas");
+	cx.report.case(Some(&format!("noargs {:?}", out.status.code())));
+	cx.report.hit(&format!("cli noargs: exit status {:?}", out.status.code()));
+	use std::os::unix::process::ExitStatusExt;
+	if let Some(sig) = out.status.signal() {cx.report.oracle_fail(input.clone(), format!("tridas without an argument was killed by signal {sig}"));}
+	if out.stderr.is_empty() {cx.report.oracle_fail(input.clone(), "tridas without an argument says nothing on stderr");}
+	if !out.stdout.is_empty() {cx.report.oracle_fail(input, format!("tridas without an argument prints a listing: {:?}", String::from_utf8_lossy(&out.stdout)));}
+}
+
+/// the two queries the listing is built from, on operands `tridas` itself never passes (an odd address; SUB with PC as the
+/// destination, which no encoding produces): a branch at an odd address has no target, an instruction that writes the PC does not
+/// fall through
+fn query_corners(cx: &mut Cx)
+{
+	let input = "queries".to_owned();
+	let r = guarded(||
+	{
+		let mut bad = Vec::new();
+		for off in [-4i32, 0, 2, 100]
+		{
+			for i in [Instruction::B{cond: trion::arm6m::cond::Condition::Always, off}, Instruction::B{cond: trion::arm6m::cond::Condition::Equal, off}, Instruction::Bl{off}]
+			{
+				if let Some(t) = i.get_branch(BASE + 1) {bad.push(format!("{i:?} at an odd address has target {t:08X}"));}
+				if i.get_branch(BASE) != Some((BASE as i64 + 4 + off as i64) as u32) {bad.push(format!("{i:?} at {BASE:08X}: target {:?}", i.get_branch(BASE)));}
+			}
+		}
+		for (i, falls) in [
+			(Instruction::Sub{flags: false, dst: Register::PC, lhs: Register::PC, rhs: ImmReg::Immediate(4)}, false),
+			(Instruction::Sub{flags: false, dst: Register::SP, lhs: Register::SP, rhs: ImmReg::Immediate(4)}, true),
+			(Instruction::Add{flags: false, dst: Register::PC, lhs: Register::PC, rhs: ImmReg::Register(Register::R0)}, false),
+			(Instruction::Mov{flags: false, dst: Register::PC, src: ImmReg::Register(Register::R0)}, false),
+			(Instruction::Nop, true)]
+		{
+			if i.get_returns() != falls {bad.push(format!("{i:?}: get_returns() = {}", i.get_returns()));}
+		}
+		bad
+	});
+	cx.report.case(Some("queries"));
+	match r
+	{
+		Err(p) => cx.report.oracle_fail(input, format!("panic: {p}")),
+		Ok(bad) => for b in bad {cx.report.oracle_fail(input.clone(), b);},
+	}
+}
+
 pub fn run(_id: &str, cx: &mut Cx)
 {
 	cx.report.rule = "binaries = 1..N instructions (N = 40 quick, 150 thorough; four branch densities) from the real encoder: random canonical 16/32-bit instructions, B/B<cond>/BL to random boundaries (forward, backward, self), terminals BX / POP {..,PC} / UDF / B (also BKPT, UDF.W, MOV PC, ADD PC), repaired until every instruction is reachable, terminal at the end, no ADR / LDR literal. \
 Each: real tridas -> listing -> real trias -> UF2 -> independent reader. non-trivial = every case; distinct = distinct listing structures".to_owned();
 	if let Some(input) = cx.replay.clone()
 	{
+		if input == "cli noargs" {cli_noargs(cx); return;}
+		if input == "queries" {query_corners(cx); return;}
 		match unhex(input.strip_prefix("alias:").unwrap_or(&input))
 		{
 			Some(bin) =>
@@ -548,6 +599,14 @@ Each: real tridas -> listing -> real trias -> UF2 -> independent reader. non-tri
 	}
 	// MOV Rd, PC only reads the PC and falls through
 	bins.push(unhex("784608307047").unwrap());
+	// branches that leave the file (outside the hypothesis; listed without a label definition, never a crash): before the base
+	// address, past the end, exactly to the end
+	for h in ["fce7", "30d0 7047", "00f000f8", "00f000f8 7047", "00bf fed0 7047 fbe7", "fff7feff 7047"]
+	{
+		bins.push(unhex(&h.replace(' ', "")).unwrap());
+	}
+	cli_noargs(cx);
+	query_corners(cx);
 	// branches at the limits of their ranges need long files: filler NOPs around B / B<cond> at -2048, +2046, -256, +254
 	{
 		let nop = enc(&Instruction::Nop).unwrap();
